@@ -342,3 +342,8 @@ b("C11-b9", "C11", IDX, "            for name, entry in entries.items():\n      
   "            for name, entry in entries.items():\n                self[name] = entry\n", "R11.9")
 n("C11-n9", "C11", IDX, "            for name, entry in entries.items():\n                self._byname[name] = entry\n                if self._normalized is not None:\n                    assert self._path_normalizer is not None\n                    self._normalized.setdefault(self._path_normalizer(name), name)\n",
   "            self._byname.update(entries)\n            if self._normalized is not None:\n                assert self._path_normalizer is not None\n                for name in entries:\n                    self._normalized.setdefault(self._path_normalizer(name), name)\n")
+REFTABLE = "dulwich/reftable.py"
+b("C07-b12", "C07", REFTABLE, "        # Write new tables.list with just the consolidated file\n        with GitFile(tables_list_path, \"wb\") as f:\n            f.write((new_table_name + \"\\n\").encode())\n\n        # Remove old .ref files (Git's compaction behavior), after the list\n        # that named them has been replaced\n        for name in os.listdir(self.reftable_dir):\n            if name.endswith(\".ref\") and name != new_table_name:\n                os.remove(os.path.join(self.reftable_dir, name))\n",
+  "        for name in os.listdir(self.reftable_dir):\n            if name.endswith(\".ref\") and name != new_table_name:\n                os.remove(os.path.join(self.reftable_dir, name))\n\n        with GitFile(tables_list_path, \"wb\") as f:\n            f.write((new_table_name + \"\\n\").encode())\n", "R07.6")
+n("C07-n9", "C07", REFTABLE, "        for name in os.listdir(self.reftable_dir):\n            if name.endswith(\".ref\") and name != new_table_name:\n                os.remove(os.path.join(self.reftable_dir, name))\n",
+  "        stale = [name for name in os.listdir(self.reftable_dir) if name.endswith(\".ref\") and name != new_table_name]\n        for name in stale:\n            os.remove(os.path.join(self.reftable_dir, name))\n")
